@@ -5,3 +5,10 @@ pub open spec fn rd_seek(len: int, pos: int, s: SeekFrom) -> Option<int> {
     let t = match s { SeekFrom::Start(o) => o as int, SeekFrom::Current(d) => pos + d, SeekFrom::End(d) => len + d };
     if 0 <= t <= u64::MAX { Some(t) } else { None }
 }
+
+/// std::io::Cursor<Vec<u8>>::write: overwrites/extends at the position, zero-filling a gap (the "growable cursor" of C14)
+pub open spec fn cur_write_spec(buf: Seq<u8>, pos: int, data: Seq<u8>) -> Seq<u8> {
+    let padded = if pos > buf.len() { buf + Seq::new((pos - buf.len()) as nat, |i: int| 0u8) } else { buf };
+    let tail = if pos + data.len() < padded.len() { padded.subrange(pos + data.len(), padded.len() as int) } else { Seq::<u8>::empty() };
+    padded.subrange(0, pos) + data + tail
+}
